@@ -71,7 +71,7 @@ CLAIMED = {
    design="DESIGN.md §3 C10"),
  "C18": dict(
    technique="explicit-state model checking (E2): BFS over histories mixing every witness source on the real builder; oracle = script availability exactly once + size of the really signed transaction",
-   text="Histories to depth 4 (thorough 5) over 49 operations x 3 configurations (default, reference-input de-duplication, older entry points): key inputs sharing a key, three Byron inputs over two addresses, native-script inputs (pubkey, all-of, 2-of-3 with any-of and a time lock; inline / by reference with all or different single signers declared on two inputs of one script), Plutus inputs V1/V2/V3 (the same bytes under two languages; two inputs under one script; inline or reference script, witness / inline / reference-input datum), collateral (same / different key), certificates of every witness class, key / native / Plutus withdrawals, five voter kinds, native and Plutus mints, required signers (new / already needed), explicit reference inputs (plain, with script size, equal to a regular input, with and without the de-duplication flag), extra datums, metadata. For every built transaction: each script-locked item has its script exactly once (witness set, or reference input present in body[18], never both unless another use supplies it inline), witness datums exactly the supplied ones once, one redeemer per Plutus use, and 0 <= full_size() - |transaction signed by exactly witsVKeyNeeded + one bootstrap witness per Byron address| < 101.",
+   text="Histories to depth 3 (thorough 4) over 53 operations plus depth 4 (5) over a 36-operation core alphabet, x 3 configurations (default, reference-input de-duplication, older entry points): key inputs sharing a key, three Byron inputs over two addresses, native-script inputs (pubkey, all-of, 2-of-3 with any-of and a time lock; inline / by reference with all or different single signers declared on two inputs of one script), Plutus inputs V1/V2/V3 (the same bytes under two languages; two inputs under one script; inline or reference script, witness / inline / reference-input datum), collateral (same / different key), certificates of every witness class, key / native / Plutus withdrawals, five voter kinds, native and Plutus mints, required signers (new / already needed), explicit reference inputs (plain, with script size, equal to a regular input, with and without the de-duplication flag), extra datums, metadata. For every built transaction: each script-locked item has its script exactly once (witness set, or reference input present in body[18], never both unless another use supplies it inline), witness datums exactly the supplied ones once, one redeemer per Plutus use, and 0 <= full_size() - |transaction signed by exactly witsVKeyNeeded + one bootstrap witness per Byron address| < 101.",
    note="Trusted: notes/ledger_rules.md §4, ledger.rs. Script hashes recomputed by the harness with cryptoxide.",
    design="DESIGN.md §3 C18"),
  "C08": dict(
